@@ -117,7 +117,7 @@ def gen_workspace(rng, base):
             if rel.endswith("/init"): rel = rel[:-5]
             modules[p] = rel.replace("/", ".")
     files = {p: "\n".join(L) + "\n" for p, L in lines.items()}
-    files["main/.emmyrc.json"] = json.dumps({"workspace": {"library": ["../lib"]}})
+    files["main/.emmyrc.json"] = json.dumps({"workspace": {"library": ["@BASE@/lib"]}})
     write_tree(base, files)
     return {"files": files, "types": types, "globals": globals_, "modules": modules}
 
